@@ -25,7 +25,6 @@ impl PartialOrdSpecImpl for Value {
 //@assume objects.eq
 //@assume objects.partial_cmp
 //@assume objects.to_bool
-//@assume objects.member
 //@assume lib.function_error
 //@assume objects.map_get
 //@assume context.get_variable
@@ -36,5 +35,7 @@ impl PartialOrdSpecImpl for Value {
 //@assume context.add_variable_from_value
 broadcast use {vstd::std_specs::hash::group_hash_axioms, vstd::string::group_string_axioms, ax::axiom_strslice_ext, ax::axiom_string_ext,
     ax::axiom_refstring_into_string, ax::axiom_value_into_value, ax::axiom_vec_len_bound};
+//@verify objects.member
+//@verify objects.resolve_all
 //@verify objects.resolve
 //@include prelude/tail_std.rs
